@@ -21,6 +21,7 @@ import (
 	"math"
 	"math/big"
 	"strings"
+	"sync"
 	"time"
 
 	cstatsd "github.com/cactus/go-statsd-client/v5/statsd"
@@ -45,12 +46,21 @@ type c18Case struct {
 	Rate uint32  `json:"rate"` // Options.SampleRate as float32 bits (0 = unset)
 	Prec uint    `json:"prec"` // Options.HistogramBucketNamePrecision (0 = unset)
 	Ops  []c18Op `json:"ops"`
+	// concurrent stream (c18conc.go): when set, Ops is empty and the calls are
+	// regenerated from Conc.Seed
+	Conc *c18Conc `json:"conc,omitempty"`
 }
 
 // ---- recording statsd.Statter ----
-type c18Statter struct{ log []Ev }
+// (safe for concurrent use: the concurrent stream of c18conc.go calls it from several goroutines)
+type c18Statter struct {
+	mu  sync.Mutex
+	log []Ev
+}
 
 func (s *c18Statter) rec(m int, name string, v int64, rate float32, tags []cstatsd.Tag, extra ...string) error {
+	s.mu.Lock()
+	defer s.mu.Unlock()
 	s.log = append(s.log, Ev{K: m, I: []int64{v, int64(math.Float32bits(rate)), int64(len(tags))}, S: append([]string{name}, extra...)})
 	return nil
 }
@@ -511,9 +521,13 @@ func c18Class(c *c18Case) string {
 func init() {
 	props["C18"] = func(ctx *Ctx) {
 		ctx.Header("StatsdCorr")
-		ctx.Res.Rule = "case = (sample rate option, precision option, sequence of calls on the statsd reporter; a histogram call expands to one samples call per bucket pair of tally.BucketPairs); generated from the seed; non-trivial = at least one report call reached the client path; distinct by hash of the case"
+		ctx.Res.Rule = "case = (sample rate option, precision option, sequence of calls on the statsd reporter; a histogram call expands to one samples call per bucket pair of tally.BucketPairs); generated from the seed; non-trivial = at least one report call reached the client path; distinct by hash of the case; plus a concurrent stream: 2..8 goroutines make such calls on ONE reporter at the same time (uncontrolled schedule), the multiset of client calls must be the expected one"
 		renderings := 0
 		one := func(c *c18Case) {
+			if c.Conc != nil {
+				c18ConcOne(ctx, c)
+				return
+			}
 			res := c18Run(c)
 			key := ""
 			if res.reports > 0 {
@@ -553,5 +567,6 @@ func init() {
 			c := c18Gen(ctx.R, i)
 			one(&c)
 		}
+		c18ConcStream(ctx)
 	}
 }
